@@ -8,6 +8,7 @@ import (
 	"fmt"
 	"hash/fnv"
 	"os"
+	"runtime"
 	"sort"
 	"strconv"
 	"strings"
@@ -164,12 +165,24 @@ func TestWorker(t *testing.T) {
 	// where synctest cannot see it); say so and stop instead of hanging until the driver's timeout
 	var runStart atomic.Int64
 	var curIdx atomic.Int64
-	hangLimit := time.Duration(envInt("VERIF_HANG_S", 90)) * time.Second
+	hangLimit := time.Duration(envInt("VERIF_HANG_S", 45)) * time.Second
 	go func() {
 		for {
 			time.Sleep(2 * time.Second)
 			if st := runStart.Load(); st != 0 && time.Since(time.Unix(0, st)) > hangLimit {
-				emit(map[string]any{"type": "hung", "index": curIdx.Load(), "seed": runSeed(base, propID, int(curIdx.Load())), "seconds": hangLimit.Seconds()})
+				idx := int(curIdx.Load())
+				// Which goroutine is blocked where synctest cannot see it? A goroutine waiting for a mutex taken inside
+				// library code, while the holder is parked at a storage/network seam, means one operation's progress
+				// depends on another's I/O: reported as a violation (lock coupling). Anything else is a machinery problem.
+				buf := make([]byte, 4<<20)
+				buf = buf[:runtime.Stack(buf, true)]
+				if site := lockCouplingSite(string(buf)); site != "" {
+					emit(&violationRec{Type: "violation", Flaky: -2, Result: &kernel.Result{Prop: propID, Seed: runSeed(base, propID, idx), Index: idx, Tape: []uint32{},
+						Violation: &kernel.Violation{Oracle: "no-lock-coupling", Signature: propID + "/blocked-on-library-lock/" + site,
+							Detail: "a goroutine is blocked on a mutex inside " + site + " while the lock holder waits at a storage or network seam: the run cannot make progress (one operation's completion depends on another operation's I/O)"}}})
+				} else {
+					emit(map[string]any{"type": "hung", "index": idx, "seed": runSeed(base, propID, idx), "seconds": hangLimit.Seconds()})
+				}
 				os.Exit(3)
 			}
 		}
@@ -291,6 +304,27 @@ func TestWorker(t *testing.T) {
 	sum.States, sum.StateTotal = dumpSet(states), len(states)
 	sum.WallS = time.Since(start).Seconds()
 	emit(sum)
+}
+
+// lockCouplingSite looks through a full goroutine dump for a goroutine blocked in sync.(*Mutex).Lock / RWMutex
+// whose first non-runtime frame is library code, and returns that function name.
+func lockCouplingSite(dump string) string {
+	for _, g := range strings.Split(dump, "\n\n") {
+		lines := strings.Split(g, "\n")
+		if len(lines) == 0 || !(strings.Contains(lines[0], "sync.Mutex.Lock") || strings.Contains(lines[0], "sync.RWMutex")) {
+			continue
+		}
+		for _, l := range lines[1:] {
+			l = strings.TrimSpace(l)
+			if strings.HasPrefix(l, "github.com/hashicorp/nodeenrollment/") && !strings.Contains(l, "/storage/") {
+				if i := strings.LastIndex(l, "("); i > 0 {
+					f := l[:i]
+					return f[strings.LastIndex(f, "/")+1:]
+				}
+			}
+		}
+	}
+	return ""
 }
 
 // digestOf is the canonical digest of one run used by the determinism self-test:
